@@ -110,7 +110,11 @@ def _store_junction_case(mode, isolated, leak):
         def post(out):
             if not out.returned:
                 return []
-            f = {k: cx.num(cx.field(node, k)) for k in ("_head", "_demand", "_pressure", "_leak_demand")}
+            raw = {k: cx.field(node, k) for k in ("_head", "_demand", "_pressure", "_leak_demand")}
+            missing = [k for k, v in raw.items() if v is None]
+            if missing:       # a result left at None ends up as a non-number in the tables
+                return [("every_stored_result_is_a_number", False)]
+            f = {k: cx.num(v) for k, v in raw.items()}
             if isolated:
                 want = dict(_head=0, _demand=0, _pressure=0, _leak_demand=0)
             else:
@@ -119,7 +123,7 @@ def _store_junction_case(mode, isolated, leak):
                             _leak_demand=_val("leak_rate", n, cx) if leak else 0)
             nm = {"_head": "head_is_solved_head_or_zero_if_isolated", "_pressure": "pressure_is_head_minus_elevation_or_zero_if_isolated",
                   "_demand": "demand_is_delivered_demand_or_zero_if_isolated", "_leak_demand": "leak_demand_is_leak_rate_iff_active_and_connected"}
-            posts = [(nm[k], f[k] == want[k]) for k in want]
+            posts = [("every_stored_result_is_a_number", True)] + [(nm[k], f[k] == want[k]) for k in want]
             posts.append(("frame_only_own_fields", _only_own_fields(cx.path, node)))
             return posts
         cx.ensure(post)
